@@ -149,7 +149,7 @@ func runSeqPropConc(prop string) func(tb ev.TB, p concProg) ev.Result {
 		for _, th := range p.Threads {
 			for _, op := range th {
 				switch op.Kind {
-				case "append", "joinin", "joinbad", "setid":
+				case "append", "joinin", "joinbad", "setid", "iterstream":
 					mut++
 				}
 			}
